@@ -66,6 +66,27 @@ assert ref16(b"123456789") == 0xD64E
 assert ref64(b"123456789") == 0x62EC59E3F1A4F00A
 
 
+def cancelling(prefix, k, width):
+    """prefix + k octets that each equal the top octet of the running register (table index 0: the register just
+    shifts), so that afterwards the k low octets of the register are zero - k = width/8 empties it, k = 4 of 8
+    empties the low half of the 64 bit register. Reaches the register states that random data practically never does."""
+    if width == 16:
+        crc, tab, top, mask = 0xFFFF, T16, 8, 0xFFFF
+    else:
+        crc, tab, top, mask = 0xFFFFFFFFFFFFFFFF, T64, 56, 0xFFFFFFFFFFFFFFFF
+    for b in prefix:
+        crc = ((crc << 8) & mask) ^ tab[((crc >> top) ^ b) & 0xFF]
+    out = bytearray(prefix)
+    for _ in range(k):
+        b = (crc >> top) & 0xFF
+        out.append(b)
+        crc = ((crc << 8) & mask) ^ tab[0]
+    return bytes(out)
+
+
+RUN_BYTES = [0x00, 0xFF, 0x01, 0x80]
+
+
 def check_one(data):
     from ioflo.aid import checking
     fails = []
@@ -91,6 +112,7 @@ def plan(tier):
     shards = [{"part": "exh", "i": i, "n": 8} for i in range(8)]
     nrand = 4 if tier == "quick" else 16
     shards += [{"part": "rand", "i": i, "n": nrand} for i in range(nrand)]
+    shards += [{"part": "runs", "i": i, "n": 4} for i in range(4)]
     return shards
 
 
@@ -113,8 +135,33 @@ def work(shard, seed, tier):
         acc.exhaustive = True
         acc.note("all byte strings of length <= 2 enumerated")
         return acc
+    if shard["part"] == "runs":
+        # every sequence of up to three runs (octet from 00 FF 01 80, length 1-9), and every self-cancelling input
+        # (short prefix, then 1-8 octets that empty the register from below, then 0-3 zero octets and a tail octet)
+        runs = [bytes([b]) * k for b in RUN_BYTES for k in range(1, 10)]
+        todo = list(runs)
+        todo += [a + b for a in runs for b in runs]
+        todo += [a + b + c for a in runs[shard["i"]::shard["n"]] for b in runs for c in runs]
+        if shard["i"] == 0:
+            for prefix in [b"", b"\x00", b"\xff", b"a", b"12", b"\x00\x00\x00", b"\x80\x01\xfe"]:
+                for width in (16, 64):
+                    for k in range(1, width // 8 + 1):
+                        base = cancelling(prefix, k, width)
+                        for z in range(4):
+                            for tail in (b"", b"\x00", b"\x01", b"\xff", b"z"):
+                                todo.append(base + b"\x00" * z + tail)
+        for data in todo:
+            fails = check_one(data)
+            acc.case(key=data, nontrivial=True, classes=["runs/cancelling"],
+                     sample={"data": data} if len(acc.samples) < 3 else None)
+            for sig, what in fails:
+                acc.fail(sig, what, {"data": data})
+        acc.note("run sequences (<= 3 runs of 00/FF/01/80, lengths 1-9) and self-cancelling inputs enumerated")
+        return acc
     n = 500 if tier == "quick" else 5000
     strat = st.one_of(
+        st.builds(lambda p, w, k, z, t: cancelling(p, min(k, w // 8), w) + b"\x00" * z + t, st.binary(max_size=12),
+                  st.sampled_from([16, 64, 64]), st.integers(1, 8), st.integers(0, 5), st.binary(max_size=6)),
         st.binary(min_size=3, max_size=16),
         st.binary(min_size=3, max_size=1024),
         st.builds(lambda b, k, t: bytes([b]) * k + t, st.sampled_from([0, 0xFF, 0x80, 0x01]),
